@@ -392,6 +392,53 @@ theorem c18_no_hang (hwf : c.WF) (hr : Reach c s) (hnd : ¬ AllDone c s) : ∃ t
 
 end
 
+/-! ## When the helper of `callback_await` starts, and what the awaited operation is constructed from
+
+From ordinary code the helper coroutine starts inside the call.  From inside a running coroutine (`c.inCoro`: active
+`coro_queue`) `detach()` only queues it: it starts after the caller's full expression — and every temporary argument —
+is gone (`tmpLive = false`).  The awaited operation (`Awt awt(args...)`) is constructed in the helper's *body*, so it must
+be built from the copies the helper frame owns. -/
+
+/-- the operation has been constructed exactly when the registrar is past its first segment, and at that moment the
+caller's temporaries are dead exactly when the start was deferred -/
+theorem c18_deferred_start (hwf : c.WF) (hr : Reach c s) :
+    (s.built = true ↔ s.pc 0 ≠ Pc.gStart) ∧ (s.built = true → (s.tmpLive = false ↔ deferred c = true)) := by
+  have h := reach_inv hwf hr
+  refine ⟨h.built_iff, fun hb => ?_⟩
+  have hp := h.built_iff.1 hb
+  rw [h.tmp_iff]
+  exact ⟨fun hx => hx.1, fun hx => ⟨hx, hp⟩⟩
+
+/-- **The awaited operation is never constructed from a dead argument**: the helper takes its arguments by value, its
+frame owns the copies, and the frame is alive from its allocation until after the completion — whichever context the
+registration is made from and whenever the helper starts -/
+theorem c18_operation_built_from_live_args (hwf : c.WF) (hr : Reach c s) (hv : c.argsByRef = false) :
+    s.builtLive = true :=
+  (reach_inv hwf hr).built_val hv
+
+/-- why the by-reference variant survives every test that registers from ordinary code: a helper that starts inside the
+call finds the caller's arguments alive either way -/
+theorem c18_inline_start_args_live (hwf : c.WF) (hr : Reach c s) (hd : deferred c = false) : s.builtLive = true :=
+  (reach_inv hwf hr).built_ctx hd
+
+/-- NOT the code — `callback_await_coro(Alloc &, Fn, Args && ...)`, the frame holding references: registered from inside a
+running coroutine the operation is constructed after the caller's temporaries died (the seeded change
+r3-c18-callback-await-args-by-ref; the harness reports it as `dead-arg`) -/
+theorem c18_args_by_ref_witness :
+    let c : Cfg := { adapter := Adapter.cbAwait, n := 2, rk := fun _ => some (RK.value 42), inCoro := true, argsByRef := true }
+    let s := run c (init c) [0]
+    s.built = true ∧ s.tmpLive = false ∧ s.builtLive = false ∧ (astep c (init c) 0).2 = [Ev.alloc, Ev.callerCont, Ev.deadArg, Ev.opLoadSlot 0 Slot.null] := by
+  decide
+
+/-- the code as it is, same scenario: deferred start, the caller carries on first, the operation is built from the frame's
+copies; the completion still runs exactly once -/
+example :
+    let c : Cfg := { adapter := Adapter.cbAwait, n := 2, rk := fun _ => some (RK.value 42), inCoro := true }
+    let s := run c (init c) [0, 0, 1, 1, 1, 0]
+    (astep c (init c) 0).2 = [Ev.alloc, Ev.callerCont, Ev.opLoadSlot 0 Slot.null] ∧
+    s.tmpLive = false ∧ s.builtLive = true ∧ s.calls = 1 ∧ s.saw = [Obs.val 42] ∧ s.frees = 1 := by
+  decide
+
 /-! ## Re-use of the member-object adapters: exactly once *per awaited operation*
 
 `future_conv` and `call_fn_future_awaiter` objects are re-armed with `<<` for one operation after the other; the awaiter
